@@ -11,7 +11,7 @@ RULE = ('12 libFuzzer targets (clang: coverage-guided fuzzer + ASan + UBSan, T0 
         'RSA public operations, EC mul/muladd of every implementation; the second input byte seeds the chunking. Seed corpora are generated at '
         'run time: recorded valid handshakes of every key kind x client-auth kind and their framing variants (each cleartext record up to ChangeCipherSpec extended by extra bytes, delivered byte by byte or header-then-one-byte), all test/x509 certificates, fixture keys, PEM, valid signatures, '
         'and boundary structures with key/signature sizes at and just beyond every internal buffer (255..257, 511..513, 519..522, 1535..1561 bytes). '
-        'After each decoder/crypto target the resulting corpus is replayed once under MemorySanitizer (clang, origins tracked). Oracles: no sanitizer report, no H2 failure, interpreter steps per push <= 200000 + 4000*bytes, status getters consistent. Bounded by -runs. '
+        'Guard bytes around the work areas inside the context structures (hook H4) are poisoned, so overflows that stay inside a structure are reported too; the hostile-peer scenarios of the C03 harness (lying validator: oversized / tiny / missing keys, rogue policies) run once more here for memory safety. After each decoder/crypto target the resulting corpus is replayed once under MemorySanitizer (clang, origins tracked). Oracles: no sanitizer report, no H2 failure, interpreter steps per push <= 200000 + 4000*bytes, status getters consistent. Bounded by -runs. '
         'distinct_nontrivial = libFuzzer coverage features reached (ft) summed over targets.')
 ASSUMPTIONS = [
     'coverage-guided but finite: only executed paths are judged; ASan misses non-adjacent and intra-object overflows other than the VM stacks (hook H2) and arrays UBSan bounds-checks',
@@ -20,7 +20,7 @@ ASSUMPTIONS = [
 ]
 EVAL = ['execs']
 DISTINCT = []
-REQUIRED = ['execs', 'targets_completed', 't0_steps', 'seeds', 'msan_units_replayed',
+REQUIRED = ['execs', 'targets_completed', 't0_steps', 'seeds', 'msan_units_replayed', 'auth_cases',
             'pre_target_handshakes_completed_client', 'pre_target_handshakes_completed_server']
 PARALLEL = 12
 
@@ -49,10 +49,17 @@ def jobs(tier, seed):
                 env={'ASAN_OPTIONS': 'abort_on_error=1:detect_leaks=0:allocator_may_return_null=1:symbolize=1',
                      'UBSAN_OPTIONS': 'print_stacktrace=1:halt_on_error=1'})
         js.append(j)
+    # hostile-peer scenarios that are hard for a byte-level fuzzer to reach because they need a validator or a peer
+    # policy that lies (oversized / undersized / missing public keys, rogue key-exchange results, forged signatures):
+    # the authentication scenarios of the C03 harness, here judged for memory safety (ASan + guard bytes H4) only
+    js.append(Job('hostile-peer-scenarios', 'h_tls03', ['--seed', seed, '--prop', 'C05', '--scenarios', 0, '--full-scenarios', 0, '--auth', 1],
+                  libs=['-lcrypto'], timeout=1200))
     return js
 
 
 def on_job_done(job, rc, out, err, res):
+    if job.harness != 'fz_all':
+        return False       # plain harness: default handling
     txt = err + '\n' + out
     m = re.search(r'FZ_CORPUS target=\S+ seeds=(\d+)', txt)
     if m:
